@@ -118,6 +118,15 @@ def tensor_write(cname, scalar, rank):
 
 def read_string(): return Fn('read_string', TU, 'read', flt='nano::read', select=lambda d: astload.param_types(d) == ['std::istream &', 'std::string &'], **IN)
 def read_vec_i32(): return Fn('read_vec_i32', TU, 'read', flt='nano::read', select=ptypes('std::istream &', 'std::vector<int> &'), **IN)
+CFG_T = [(r'^nano::configurable_t$', 'struct nv_configurable'), (r'^nano::parameters_t$|^std::vector<nano::parameter_t>$|vector<parameter_t>', 'struct nv_params')]
+def configurable_read():
+    return Fn('configurable_read', 'src/configurable.cpp', 'read', flt='configurable_t::read', self_struct='struct nv_configurable',
+              types=CFG_T + T_IN, members=M_IN, uf_float=False,
+              calls=[(r'^read\|std::istream &\(std::istream &, std::vector<parameter_t> &\)', '(*nv_read_parameters({&0}, {&1}))')] + C_IN)
+def configurable_write():
+    return Fn('configurable_write', 'src/configurable.cpp', 'write', flt='configurable_t::write', self_struct='struct nv_configurable',
+              types=CFG_T + T_OUT, members=M_OUT, uf_float=False,
+              calls=[(r'^write\|std::ostream &\(std::ostream &, const std::vector<parameter_t> &\)', '(*nv_write_parameters({&0}, {&1}))')] + C_OUT)
 def hash_combine(): return Fn('hash_combine', TU, 'hash_combine', flt='nano::detail::hash_combine', uf_float=False)
 def hash_fn(cname, scalar):
     return Fn(cname, TU, 'hash', flt='nano::detail::hash', select=targs(scalar, 'long'), uf_float=False,
@@ -131,6 +140,38 @@ def tensor_read(cname, scalar, rank):
 CADICAL = ['--sat-solver', 'cadical']
 NV_UNWIND = 6   # > max rank + 1: the dims loops of read_cast / write_cast are unwound completely (unwinding assertions on)
 INST = [('f64', 'double', 1), ('f64', 'double', 2), ('f64', 'double', 4), ('i64', 'long', 1)]
+
+
+def lemma_vcs():
+    """consequences of the PROVED reader / writer contracts, checked by SMT over Int with nano::size uninterpreted"""
+    out = []
+    for rank, S in ((1, 8), (2, 8), (4, 8)):
+        H = 20 + 4 * rank
+        ks = range(rank)
+        dz = lambda v: ' '.join([f'{v}{k}' for k in ks] + ['0'] * (4 - rank))
+        common = ('(declare-fun sz (Int Int Int Int) Int)   ; nano::size(dims), whatever it computes\n'
+                  '(declare-fun cV (Int) Int)                ; int32 view of the valid stream V at an offset\n'
+                  '(declare-fun cP (Int) Int)                ; int32 view of the stream P given to the reader\n'
+                  '(declare-const lenV Int)(declare-const lenP Int)(declare-const used Int)\n'
+                  + ''.join(f'(declare-const d{k} Int)(declare-const e{k} Int)' for k in ks) + '\n'
+                  # writer contract (tensor_write postconditions 2-4): V = write(t), dims d_k in [0, 2^31), len = header + S*size
+                  + ''.join(f'(assert (and (<= 0 d{k}) (< d{k} 2147483648) (= (cV {8 + 4 * k}) d{k})))' for k in ks) + '\n'
+                  f'(assert (= lenV (+ {H} (* {S} (sz {dz("d")})))))\n'
+                  # P agrees with V on every int32 that lies entirely inside P (P is a prefix of V / V with payload bytes altered)
+                  + ''.join(f'(assert (=> (<= {8 + 4 * k + 4} lenP) (= (cP {8 + 4 * k}) (cV {8 + 4 * k}))))' for k in ks) + '\n'
+                  # reader contract (tensor_read postconditions 3 and 7) for an ACCEPTED P
+                  + ''.join(f'(assert (= e{k} (cP {8 + 4 * k})))' for k in ks) + '\n'
+                  f'(assert (and (>= (sz {dz("e")}) 0) (= used (+ {H} (* {S} (sz {dz("e")})))) (<= used lenP)))\n')
+        out.append(VC(f'lemma/prefix_rank{rank}: every strict prefix of a written tensor stream is rejected',
+                      common + '(assert (and (<= 0 lenP) (< lenP lenV)))', group='lemma',
+                      about='tensor_read accepted => consumed = header + sizeof*size(dims read) <= len and dims = stored int32s; '
+                            'the prefix has the same dims wherever it holds them, hence would need len(V) bytes'))
+        out.append(VC(f'lemma/prefix_rank{rank}: vacuity guard (the whole stream can be accepted)', common + '(assert (= lenP lenV))',
+                      group='lemma', expect='sat', about='vacuity guard (must be sat)'))
+        out.append(VC(f'lemma/roundtrip_rank{rank}: reading a written tensor consumes exactly what was written and yields its dims',
+                      common + '(assert (= lenP lenV))\n(assert (not (and (= used lenV) ' + ' '.join(f'(= e{k} d{k})' for k in ks) + ')))',
+                      group='lemma', about='field sequence symmetry + int32 narrowing is lossless for dims < 2^31'))
+    return out
 
 
 def build(tier):
@@ -159,6 +200,10 @@ def build(tier):
         Target('read_vec_i32', [read_vec_i32(), read_u64(), read_i32()], P),
     ]
     targets += [
+        Target('configurable_read', [configurable_read(), read_i32()], D + 'configurable.h'),
+        Target('configurable_write', [configurable_write(), write_i32()], D + 'configurable.h'),
+    ]
+    targets += [
         Target('hash_combine', [hash_combine()], P),
         Target('hash_f64', [hash_fn('hash_f64', 'double'), hash_combine()], D + 'hash_f64.h'),
         Target('hash_i64', [hash_fn('hash_i64', 'long'), hash_combine()], D + 'hash_i64.h', checks=NOCONV),
@@ -173,9 +218,87 @@ def build(tier):
         if rank == 1:   # exact arithmetic (no product); for rank >= 2 the product is uninterpreted and a counterexample could be spurious
             targets.append(Target(f'tensor_read_dims_{tag}_{rank}', [tensor_read('tensor_read_dims', scalar, rank)] + deps(), pre, loops=0, unwind=NV_UNWIND, cbmc_flags=CADICAL))
     return {
-        'targets': targets, 'vcs': [],
-        'decided': [],
-        'not_decided': [],
-        'assumptions': [],
+        'targets': targets, 'vcs': lemma_vcs(),
+        'decided': [
+            'tensor reader (double rank 1/2/4, int64 rank 1; header dims well-formed): never reports good a stream that had failed or is short; accepted => version, rank, sizeof(scalar) '
+            'were checked against the stream, every dim is the stored int32, size = nano::size(dims) >= 0, exactly header + size*sizeof bytes consumed (<= len), the stored hash was compared '
+            'equal to hash(content) of exactly the payload slice, the tensor block holds that slice; istream::read always gets a non-negative count and a destination of that many bytes',
+            'lemma (SMT, from the proved contracts): every strict prefix of a written tensor stream is rejected; reading a written stream consumes it exactly and yields its dims',
+            'tensor writer: success => the field sequence is version 0, rank, each dim as int32, sizeof(scalar), hash(content), content -- same offsets/widths (shared layout macros) as the reader consumes; '
+            'failure is sticky; ostream::write always gets a non-negative count and a readable source of that size',
+            'core/stream.h: read/write of scalars, arrays, read_cast/write_cast (symbolic count, loop contracts), read(string), read(vector<int32>): exact bytes consumed, values = stored values, '
+            'failure and truncation propagate (never good after a short or failed read)',
+            'detail::hash: memory safe, terminates, hash of nothing is 0, one element = hash_combine(0, bits); hash_combine injective in its second argument',
+            'configurable_t::read/write: truncated / failed / newer-version stream => exception, normal return => stream good, versions stored in order, parameter list read once right after them',
+        ],
+        'not_decided': [
+            'bit-identical predictions of re-read models (object graphs: learners, gboost, wlearners)',
+            'detection of altered payload bytes is only as strong as the 64-bit hash: proved is that the comparison is made on exactly the payload, not that collisions are impossible',
+            'header corruption is not covered by the hash at all (a corrupted dim of an empty tensor is accepted: format property, shown natively in the replay)',
+            'tensor_read_dims for rank >= 2: the product is uninterpreted there, a counterexample could be spurious; the defect is shown at rank 1 (exact) and natively for rank 2 and 4',
+            'parameter_t::read / write (variant storage, switch over the type tag), read(unique_ptr<T>) (factory lookup), write(vector<T>) (std::any_of + lambda), read(vector<string>)',
+        ],
+        'assumptions': [
+            'std::istream::read(dst, n): failed stream extracts nothing; if len-pos >= n stores the n bytes at pos and advances, else sets fail and never reads at or beyond len (stub nv_istream_read)',
+            'std::ostream::write(src, n): failed stream inserts nothing; otherwise appends n bytes or fails (stub nv_ostream_write)',
+            'stream content is an arbitrary fixed function offset -> value (1/4/8-byte views unrelated); payload blocks are represented by a ghost content identity, their memory is not modelled',
+            'detail::hash(data, n) is a deterministic function of the content of data[0,n) (uninterpreted), 0 for n <= 0 (that clause is proved on the real hash)',
+            'tensor resize(dims): size() becomes nano::size(dims) (uninterpreted for rank >= 2; non-negative when all dims >= 0 and no overflow), throws bad_alloc above 2^47 bytes or at will, '
+            'negative size leaves a null block (release build), success gives a fresh block of size() scalars',
+            'main tensor_read targets assume WELL-FORMED header dims (non-negative, product not overflowing): true of every prefix of a valid stream and of payload-corrupted valid streams; '
+            'the targets tensor_read_dims_* drop it and FAIL (genuine defect: the reader does not validate the dims)',
+            'tensor writer precondition: every dim fits int32 (write_cast<int32_t> narrows silently otherwise), tensor is a live object (dims >= 0, size() scalars at data())',
+            'std::string / std::vector resize(n): throws or holds exactly n elements; containers abstracted to the element at a ghost index',
+            'read/write of std::vector<parameter_t> inside configurable_t: throws, fails or consumes >= 8 bytes (stub nv_read_parameters / nv_write_parameters)',
+            'nano::major/minor/patch_version are arbitrary constants',
+            'x86-64 little endian; int = 32, long = 64 bits (type_facts.cpp)',
+        ],
         'trusted': [],
     }
+
+
+def replay(rp):
+    """tensor_read_dims_*: the dims of the verifier's counterexample (values stored by resize()) are put into a real stream
+    and fed to the real nano::read through a stream buffer that logs the counts istream::read hands down; then the
+    canonical wrap / sign witnesses for rank 2 and 4.  Other targets: no native driver (verifier output only)."""
+    import re
+    import replaylib
+    out = {'reproduced': False, 'runs': []}
+    m = re.match(r'tensor_read(_dims)?_(f64|i64)_(\d)$', rp.get('target', ''))
+    if not m:
+        out['note'] = 'no native driver for this target: the replay file carries the verifier output only'
+        return out
+    tag, rank = m.group(2), int(m.group(3))
+    exe = replaylib.build_header_only('replay/C15_replay.cpp', 'C15_replay')
+    cands = []
+    for fo in rp['failed_obligations']:
+        ce = fo.get('counterexample') or {}
+        dims = {}
+        for k, v in ce.items():
+            mm = re.search(r'nv_tensor_resize::dynamic_object\$\d+\.m_dims\.d\[(\d)l?\]$', k)
+            if mm:
+                try:
+                    dims[int(mm.group(1))] = int(str(v).rstrip('l'))
+                except ValueError:
+                    pass
+        if len(dims) == rank:
+            cands.append((fo['id'], [dims[k] for k in range(rank)]))
+    # canonical witnesses of the same defect (dims are not validated): sign pair / int64 wrap to 0
+    extra = {1: [[-5]], 2: [[-2, -3], [-2147483648, 1073741824]], 4: [[65536, 65536, 65536, 65536], [-1, -1, 2, 3]]}
+    for d in extra.get(rank, []):
+        cands.append(('canonical witness', d))
+    for oid, d in cands:
+        try:
+            rc, so, se = replaylib.run_driver(exe, ['tensor', tag, rank] + d)
+        except Exception as e:
+            out['runs'].append({'obligation': oid, 'dims': d, 'error': repr(e)})
+            continue
+        out['runs'].append({'obligation': oid, 'dims': d, 'exit': rc, 'output': so.strip()})
+        if rc == 1:
+            out['reproduced'] = True
+    try:
+        rc, so, se = replaylib.run_driver(exe, ['corrupt_dim'])
+        out['header_corruption_of_empty_tensor'] = {'exit': rc, 'output': so.strip()}
+    except Exception as e:
+        out['header_corruption_of_empty_tensor'] = {'error': repr(e)}
+    return out
